@@ -11,8 +11,10 @@ import (
 	"fmt"
 	"strings"
 	"testing"
+	"time"
 
 	"github.com/titpetric/vuego"
+	xhtml "golang.org/x/net/html"
 	"pgregory.net/rapid"
 
 	"verif/internal/cat"
@@ -31,7 +33,7 @@ type Case struct {
 	Gen        *compose.Case `json:"gen,omitempty"`
 	Prog       string        `json:"prog"`
 	Entry      string        `json:"entry"`
-	Mode       string        `json:"mode"` // "ref" | "failat" | "cancel" | "failnth" | "refuse" | "cancelmid"
+	Mode       string        `json:"mode"` // "ref" | "failat" | "cancel" | "deadline" | "failnth" | "refuse" | "cancelmid" | "procfail"
 	K          int           `json:"k,omitempty"`
 	InjectFile string        `json:"inject_file,omitempty"` // inject a failing expression into this file
 	InjectEnd  bool          `json:"inject_end,omitempty"`
@@ -106,6 +108,72 @@ func check(c Case) error {
 		}
 		if len(w.Got) != 0 {
 			return fmt.Errorf("%s/%s: cancelled render returned %v but had written %d bytes: %q", c.Prog, c.Entry, err, len(w.Got), w.Got)
+		}
+		return nil
+	case "deadline":
+		// a context that is done because its deadline passed (not because cancel was called)
+		var cctx context.Context
+		var cancel context.CancelFunc
+		if c.K%2 == 0 {
+			cctx, cancel = context.WithDeadline(ctx, time.Unix(1, 0))
+		} else {
+			cctx, cancel = context.WithTimeout(ctx, -time.Second)
+		}
+		defer cancel()
+		w := &fw.Capture{}
+		err := p.Run(cctx, c.Entry, w)
+		if err == nil {
+			return fmt.Errorf("%s/%s: the context's deadline had passed before the call but render returned nil (wrote %d bytes)", c.Prog, c.Entry, len(w.Got))
+		}
+		if len(w.Got) != 0 {
+			return fmt.Errorf("%s/%s: render with an expired context returned %v but had written %d bytes: %q", c.Prog, c.Entry, err, len(w.Got), w.Got)
+		}
+		return nil
+	case "procfail":
+		// a registered node processor rejects the evaluated document (PostProcess, K < 2) or the
+		// parsed template (PreProcess, K >= 2) because of an element placed first (K even) or
+		// last (K odd) in the page: an error is returned and nothing is written
+		if p.Fails {
+			return nil
+		}
+		q := p
+		q.Files = map[string]string{}
+		for k, v := range p.Files {
+			q.Files[k] = v
+		}
+		page := q.Files["page.vuego"]
+		fm, body := "", page
+		if strings.HasPrefix(page, "---\n") {
+			if i := strings.Index(page[4:], "\n---\n"); i >= 0 {
+				fm, body = page[:4+i+5], page[4+i+5:]
+			}
+		}
+		hook := `<p data-procfail="1">rejected</p>`
+		if c.K%2 == 0 {
+			if j := strings.Index(body, "<body>"); j >= 0 {
+				body = body[:j+6] + hook + body[j+6:]
+			} else {
+				body = hook + body
+			}
+		} else if j := strings.Index(body, "</body>"); j >= 0 {
+			body = body[:j] + hook + body[j:]
+		} else {
+			body += hook
+		}
+		q.Files["page.vuego"] = fm + body
+		w := &fw.Capture{}
+		opts := []vuego.LoadOption{vuego.WithFuncs(cat.Funcs()), vuego.WithProcessor(&rejecting{pre: c.K >= 2})}
+		for _, o := range q.Opts {
+			if o == "components" {
+				opts = append(opts, vuego.WithComponents())
+			}
+		}
+		err := q.RunOn(ctx, vuego.NewFS(q.FS(), opts...), c.Entry, w)
+		if err == nil {
+			return fmt.Errorf("%s/%s: the registered processor rejected the document but render returned nil", c.Prog, c.Entry)
+		}
+		if len(w.Got) != 0 {
+			return fmt.Errorf("%s/%s: the registered processor rejected the document (%v) but %d bytes had already been written: %q", c.Prog, c.Entry, err, len(w.Got), w.Got)
 		}
 		return nil
 	case "ref":
@@ -237,6 +305,44 @@ func check(c Case) error {
 	return fmt.Errorf("unknown mode %q", c.Mode)
 }
 
+// rejecting is a node processor that fails when the nodes it is given contain an element
+// carrying data-procfail (in PreProcess when pre is set, otherwise in PostProcess).
+type rejecting struct{ pre bool }
+
+func (r *rejecting) New() vuego.NodeProcessor { return &rejecting{pre: r.pre} }
+
+func (r *rejecting) PreProcess(nodes []*xhtml.Node) error {
+	if r.pre {
+		return findRejected(nodes)
+	}
+	return nil
+}
+
+func (r *rejecting) PostProcess(nodes []*xhtml.Node) error {
+	if !r.pre {
+		return findRejected(nodes)
+	}
+	return nil
+}
+
+func findRejected(nodes []*xhtml.Node) error {
+	for _, n := range nodes {
+		for _, a := range n.Attr {
+			if a.Key == "data-procfail" {
+				return fmt.Errorf("processor: element <%s data-procfail> rejected", n.Data)
+			}
+		}
+		var kids []*xhtml.Node
+		for c := n.FirstChild; c != nil; c = c.NextSibling {
+			kids = append(kids, c)
+		}
+		if err := findRejected(kids); err != nil {
+			return err
+		}
+	}
+	return nil
+}
+
 // complete checks that a successful render delivered the whole document: the END marker that
 // every catalogue program carries as its last element is there.
 func complete(p cat.Program, out string) error {
@@ -307,6 +413,8 @@ func TestProp(t *testing.T) {
 			}
 			each(Case{Prog: p.Name, Entry: e, Mode: "ref"})
 			each(Case{Prog: p.Name, Entry: e, Mode: "cancel"})
+			each(Case{Prog: p.Name, Entry: e, Mode: "deadline", K: 0})
+			each(Case{Prog: p.Name, Entry: e, Mode: "deadline", K: 1})
 			if p.Fails {
 				continue
 			}
@@ -337,16 +445,19 @@ func TestProp(t *testing.T) {
 			}
 			each(Case{Prog: p.Name, Entry: e, Mode: "cancelmid", K: 0})
 			each(Case{Prog: p.Name, Entry: e, Mode: "cancelmid", K: 1})
+			for k := 0; k < 4; k++ {
+				each(Case{Prog: p.Name, Entry: e, Mode: "procfail", K: k})
+			}
 		}
 	}
 	if ok {
-		rec.Exhaustive(fmt.Sprintf("every catalogue program x Template entry point x {reference, cancelled context, context cancelled during evaluation, injected failure in every file at start/end, writer failing at every byte offset 0..len, every single write call failing once, size-limited writers} (%d cases)", i))
+		rec.Exhaustive(fmt.Sprintf("every catalogue program x Template entry point x {reference, cancelled context, expired deadline, context cancelled during evaluation, rejecting node processor (pre/post, first/last element), injected failure in every file at start/end, writer failing at every byte offset 0..len, every single write call failing once, size-limited writers} (%d cases)", i))
 	}
 	// generated composition programs (includes, slots, loops, chains) x file entry points x faults
 	run.Rapid(t, rec, "generated", func(t *rapid.T) Case {
 		g := compose.Gen(t)
 		c := Case{Gen: &g, Prog: "generated", Entry: rapid.SampledFrom([]string{"load", "file"}).Draw(t, "entry"),
-			Mode: rapid.SampledFrom([]string{"failat", "failat", "failnth", "refuse", "cancel", "cancelmid", "ref"}).Draw(t, "mode")}
+			Mode: rapid.SampledFrom([]string{"failat", "failat", "failnth", "refuse", "cancel", "deadline", "cancelmid", "procfail", "ref"}).Draw(t, "mode")}
 		c.K = rapid.IntRange(0, 1500).Draw(t, "k")
 		if c.Mode == "failnth" {
 			c.K = rapid.IntRange(0, 200).Draw(t, "kw")
@@ -360,7 +471,7 @@ func TestProp(t *testing.T) {
 	// random combination (keeps the rapid path and shrinking available for seeded changes)
 	names := cat.Names()
 	run.Rapid(t, rec, "random", func(t *rapid.T) Case {
-		c := Case{Prog: rapid.SampledFrom(names).Draw(t, "prog"), Entry: rapid.SampledFrom(cat.Entries).Draw(t, "entry"), Mode: rapid.SampledFrom([]string{"ref", "failat", "cancel", "failnth", "refuse", "cancelmid"}).Draw(t, "mode")}
+		c := Case{Prog: rapid.SampledFrom(names).Draw(t, "prog"), Entry: rapid.SampledFrom(cat.Entries).Draw(t, "entry"), Mode: rapid.SampledFrom([]string{"ref", "failat", "cancel", "deadline", "failnth", "refuse", "cancelmid", "procfail"}).Draw(t, "mode")}
 		c.K = rapid.IntRange(0, 700).Draw(t, "k")
 		return c
 	}, classify, check)
